@@ -175,6 +175,9 @@ class Interp:
         if h == 'opt':
             return SOpt(self.fresh_term(base + '?none', BOOL, is_input),
                         self.fresh(base, ty[1], is_input))
+        if h.startswith('exc:'):
+            cls = self.env.exc_types[h[4:]]
+            return self.make_exception(cls, [], {})
         if h == 'set':
             t = self.fresh_term(base, smt.SetS(type_sort(ty[1], classes)), is_input)
             return self.alloc_set(SSetV(t, ty[1]))
